@@ -466,7 +466,15 @@ def _run(spec, rec, qv):
             continue
 
         def to_solution(s, form=form, form_spin=form_spin):
-            return lib(H.convert_solution, s, spin=form_spin, what="convert_solution(%s)" % form)
+            got = lib(H.convert_solution, s, spin=form_spin, what="convert_solution(%s)" % form)
+            vals = s.values() if isinstance(s, dict) else s
+            if any(v == (-1 if form_spin else 0) for v in vals):
+                # the flag only matters for all-ones solutions (documented); unambiguous here, so omit it
+                got2 = lib(H.convert_solution, s, what="convert_solution(%s, no flag)" % form)
+                if got2 != got:
+                    raise Violation("convert_solution_noflag/%s" % form,
+                                    "with spin=%r: %r, without the flag: %r; solution %r; %s" % (form_spin, got, got2, s, info))
+            return got
         table_check(dict(D), order, form_spin, to_solution, form)
         classes.add(form)
         if form in ("to_qubo", "to_quso") and len(order) > nbv:
